@@ -1250,6 +1250,13 @@ class LuaASTEchoWriter(BaseLuaWriter):
 
         # Write the last line and any trailing spaces, as lines.
         last = b''.join(linebuf) + self._get_code_for_spaces(None)
+        if (not self._args.get('ignore_tokens') and
+                self._pos < len(self._tokens)):
+            # The parser stopped before the end of the code. Writing only
+            # the parsed part would silently drop the rest.
+            raise parser.ParserError(
+                'Code could not be parsed to the end; unexpected token',
+                token=self._tokens[self._pos])
         parts = last.split(b'\n')
         for i in range(len(parts)-1):
             yield parts[i] + b'\n'
